@@ -235,3 +235,46 @@ def _excluded_by_domain(t: ast.AST, pol: bool, env, positive) -> bool:
         if op is ast.Eq and c < 1:
             return True
     return False
+
+
+def flag_loops_without_exit(f: Func):
+    """[(while node, description)]: `while flag:` / `while not flag:` whose body binds the flag only to constants that
+    keep the test true, with no break / return / raise inside - the loop cannot end once entered"""
+    out = []
+    for w in [n for n in f.own_nodes() if isinstance(n, ast.While)]:
+        t, keep = w.test, True
+        if isinstance(t, ast.UnaryOp) and isinstance(t.op, ast.Not):
+            t, keep = t.operand, False
+        if not isinstance(t, ast.Name):
+            continue
+        inner = [x for st in w.body for x in ast.walk(st)]
+        if any(isinstance(x, (ast.Break, ast.Return, ast.Raise, ast.Yield, ast.YieldFrom)) for x in inner):
+            continue
+        if any(isinstance(x, (ast.FunctionDef, ast.Lambda)) for x in inner) and any(isinstance(x, ast.Nonlocal) and t.id in x.names for x in inner):
+            continue
+        binds = []
+        opaque = False
+        for x in inner:
+            if isinstance(x, ast.Assign):
+                for tg in x.targets:
+                    for e in (tg.elts if isinstance(tg, (ast.Tuple, ast.List)) else [tg]):
+                        if isinstance(e, ast.Name) and e.id == t.id:
+                            if isinstance(tg, ast.Name) and isinstance(x.value, ast.Constant):
+                                binds.append(bool(x.value.value))
+                            else:
+                                opaque = True
+            elif isinstance(x, (ast.AugAssign, ast.AnnAssign, ast.NamedExpr)) and isinstance(x.target, ast.Name) and x.target.id == t.id:
+                opaque = True
+            elif isinstance(x, (ast.For, ast.comprehension)) and any(isinstance(e, ast.Name) and e.id == t.id for e in ast.walk(x.target)):
+                opaque = True
+        # only genuine flags: bound to constants in the loop, never used as an object (method call, argument, subscript)
+        for x in inner:
+            if isinstance(x, (ast.Attribute, ast.Subscript)) and isinstance(x.value, ast.Name) and x.value.id == t.id:
+                opaque = True
+            elif isinstance(x, ast.Call) and any(isinstance(a, ast.Name) and a.id == t.id for a in x.args):
+                opaque = True
+        if opaque or not binds:
+            continue
+        if all(b == keep for b in binds):
+            out.append((w, f"`while {ast.unparse(w.test)}`: inside the loop `{t.id}` is only ever set to {keep if binds else 'nothing'} and there is no break or return"))
+    return out
